@@ -530,6 +530,9 @@ def run(res, replay=None):
             if not res.violations:
                 res.violation("batch could not be prepared", {"status": status}, no_input=True)
             return
+        # WIRING TIE for the node types (Gen/Wiring.v nodes_wiring_ok, theorem C11_wiring_nodes): strict reading of the emitted
+        # node code of every batch package against collect_rx / collect_tx / has_send_type of the denoted database
+        genfam.wiring_stage(res, scratch, progs)
         api_exe, log = vlib.build_harness("api", scratch)
         if api_exe is None:
             res.violation("source-reading harness does not build (broken tie)", {"build_log": log[-3000:]}, no_input=True)
